@@ -62,6 +62,7 @@ def run(lines, out, args):
                     fn.__kwdefaults__ = kd
             fn.colour = "red"
             fn.answer = 42
+            fn.nothing = None
             if kind in "MS":
                 C = type("C", (), {"f": fn})
                 target = C().f
@@ -81,8 +82,12 @@ def run(lines, out, args):
                 ",".join(info["positional"]), ",".join(info["required"]),
                 ",".join("%s=%r" % (k, v) for k, v in info["optional"].items()), info["varargs"], info["kwargs"],
                 m.getSignatureString())
-            tags = sorted((k, m.getTaggedValue(k)) for k in m.getTaggedValueTags())
-            if tags != [("answer", 42), ("colour", "red")]:
+            try:
+                tags = sorted((k, m.getTaggedValue(k)) for k in m.getTaggedValueTags())
+                tags2 = sorted((k, m.queryTaggedValue(k, "absent")) for k in ("answer", "colour", "nothing"))
+            except Exception as e:  # noqa
+                tags = tags2 = "raised %s" % type(e).__name__
+            if tags != [("answer", 42), ("colour", "red"), ("nothing", None)] or tags2 != tags:
                 got += " TAGS-WRONG:%r" % (tags,)
             # the real code object, for the model
             c = fn.__code__
